@@ -344,6 +344,11 @@ def hypothesis_shard(item: dict[str, Any]) -> Collector:
         nan_n = draw(st.sampled_from([0, 0, 0, 1, 2]))
         case["nans"] = sorted({(draw(st.integers(0, r_n - 1)), draw(st.integers(-1, p_n - 1)), draw(st.integers(0, k_n + c_n - 1)))
                                for _ in range(nan_n)})
+        if "stddev" in estimators and r_n > 2 and draw(st.integers(0, 2)) == 0:  # noqa: PLR2004
+            # a realization that failed in the function evaluation (NaN values) next to a spread estimated from the others
+            case["nans"] = sorted({*case["nans"], (draw(st.integers(0, r_n - 1)), -1, draw(st.integers(0, k_n + c_n - 1)))})
+            case["rmin"] = min(case["rmin"], r_n - 1)
+            case["failed_with_stddev"] = True
         if r_n > 1 and n < p_n and not merge and draw(st.integers(0, 3)) == 0:
             # staggered failures under one shared design: in every realization another perturbation fails, each realization keeps
             # P-1 perturbations of its own (spanning the variables), the perturbations that succeeded everywhere need not span them
